@@ -1307,4 +1307,298 @@ theorem last_found_is_greatest (p : Str → Bool) (l : List Str) (hl : l.Pairwis
       simp [hp] at this
 
 
+/-! ### INI documents: reading rendered lines back over the grammar's whole alphabet -/
+
+theorem takeWhile_stop {p : Char → Bool} (a b : Str) (y : Char) (ha : ∀ x ∈ a, p x = true) (hy : p y = false) :
+    (a ++ y :: b).takeWhile p = a ∧ (a ++ y :: b).dropWhile p = y :: b := by
+  induction a with
+  | nil => simp [List.takeWhile_cons, List.dropWhile_cons, hy]
+  | cons x xs ih =>
+    have hx := ha x (by simp)
+    have := ih (fun z hz => ha z (by simp [hz]))
+    simp [List.takeWhile_cons, List.dropWhile_cons, hx, this]
+
+theorem takeWhile_all {p : Char → Bool} (a : Str) (ha : ∀ x ∈ a, p x = true) :
+    a.takeWhile p = a ∧ a.dropWhile p = [] := by
+  induction a with
+  | nil => simp
+  | cons x xs ih =>
+    have hx := ha x (by simp)
+    have := ih (fun z hz => ha z (by simp [hz]))
+    simp [List.takeWhile_cons, List.dropWhile_cons, hx, this]
+
+theorem isIniWs_space : isIniWs ' ' = true := by decide
+
+theorem lstripWs_spaces (n : Nat) (s : Str) : lstripWs (spaces n ++ s) = lstripWs s := by
+  induction n with
+  | zero => rfl
+  | succ k ih =>
+    have : spaces (k + 1) ++ s = ' ' :: (spaces k ++ s) := by simp [spaces, List.replicate_succ]
+    rw [this]; simp only [lstripWs, List.dropWhile_cons, isIniWs_space, if_true]; exact ih
+
+theorem lstripWs_head (s : Str) (h : ∀ c, s.head? = some c → isIniWs c = false) : lstripWs s = s := by
+  cases s with
+  | nil => rfl
+  | cons c cs => simp [lstripWs, List.dropWhile_cons, h c rfl]
+
+theorem leadWs_head (s : Str) (h : ∀ c, s.head? = some c → isIniWs c = false) : leadWs s = 0 := by
+  cases s with
+  | nil => rfl
+  | cons c cs => simp [leadWs, List.takeWhile_cons, h c rfl]
+
+theorem rstripBS_id (v : Str) (h : ∀ c, v.getLast? = some c → c ≠ ' ' ∧ c ≠ '\\') : rstripBS v = v := by
+  unfold rstripBS
+  cases hr : v.reverse with
+  | nil =>
+    have : v = [] := by simpa using hr
+    simp [this]
+  | cons c cs =>
+    have hl : v.getLast? = some c := by rw [List.getLast?_eq_head?_reverse, hr]; rfl
+    have := h c hl
+    simp only [List.dropWhile_cons, this.1, this.2, decide_false, Bool.or_self, Bool.false_eq_true, if_false]
+    rw [← hr]; simp
+
+theorem isIniWs_isSpace (c : Char) (h : isIniWs c = true) : isSpace c = true := by
+  unfold isIniWs at h
+  simp only [Bool.or_eq_true, decide_eq_true_eq] at h
+  rcases h with ((((h | h) | h) | h) | h) | h <;> (subst h; decide)
+
+theorem not_iniWs_of_not_space (c : Char) (h : isSpace c = false) : isIniWs c = false := by
+  cases hw : isIniWs c with
+  | false => rfl
+  | true => rw [isIniWs_isSpace c hw] at h; cases h
+
+/-- what the proofs need of the grammar's character sets -/
+structure IniAlphaOk (A : IniAlphabet) : Prop where
+  sp_key : A.key.contains ' ' = true
+  sp_header : A.header.contains ' ' = true
+  sp_value : A.value.contains ' ' = true
+  rb_header : A.header.contains ']' = false
+  lb_comment : A.comment.contains '[' = false
+  hash : A.comment.contains '#' = true
+  semi : A.comment.contains ';' = true
+  sep_key : ∀ c, A.sep.contains c = true → A.key.contains c = false ∧ isIniWs c = false
+
+/-- an option name the format admits: not empty, no blank at either end, every character a key character —
+    ANY key character at ANY position, except that a comment starter (or `[`) cannot come first -/
+def OptNameOk (A : IniAlphabet) (n : Str) : Prop :=
+  n ≠ [] ∧ Stripped n ∧ (∀ c ∈ n, A.key.contains c = true) ∧
+  (∀ c, n.head? = some c → A.comment.contains c = false ∧ c ≠ '[')
+
+def SecNameOk (A : IniAlphabet) (n : Str) : Prop :=
+  n ≠ [] ∧ Stripped n ∧ (∀ c ∈ n, A.header.contains c = true)
+
+/-- a value the format admits: value characters, no `#` (inline comment), no white space in front, neither
+    blank nor backslash at the end; `;`, `=`, `:`, `[`, `]` are all allowed -/
+def IniValOk (A : IniAlphabet) (v : Str) : Prop :=
+  (∀ c ∈ v, A.value.contains c = true) ∧ '#' ∉ v ∧ (∀ c, v.head? = some c → isIniWs c = false) ∧
+  (∀ c, v.getLast? = some c → c ≠ ' ' ∧ c ≠ '\\')
+
+theorem mem_spaces_eq (c : Char) (n : Nat) (h : c ∈ spaces n) : c = ' ' := by
+  simp [spaces, List.mem_replicate] at h; exact h.2
+
+/-- a rendered option line is read back as exactly that option: it can neither vanish nor lose its value -/
+theorem classify_opt_line (A : IniAlphabet) (hA : IniAlphaOk A) (n v : Str) (s1 s2 : Nat) (sep : Char)
+    (hn : OptNameOk A n) (hsep : A.sep.contains sep = true) (hv : IniValOk A v) :
+    classifyIniLine A (renderIniItem (.opt n s1 sep s2 v)) = .opt ⟨n, some v⟩ (!v.isEmpty) ∧
+    leadWs (renderIniItem (.opt n s1 sep s2 v)) = 0 := by
+  obtain ⟨hn0, hns, hnk, hnh⟩ := hn
+  obtain ⟨hvv, hvhash, hvh, hvl⟩ := hv
+  obtain ⟨hsk, hsw⟩ := hA.sep_key sep hsep
+  cases n with
+  | nil => exact absurd rfl hn0
+  | cons c cs =>
+    have hcw : isIniWs c = false := not_iniWs_of_not_space c (hns.1 c rfl)
+    have hcc := hnh c rfl
+    have hline : renderIniItem (.opt (c :: cs) s1 sep s2 v) = c :: (cs ++ spaces s1 ++ sep :: (spaces s2 ++ v)) := by
+      simp [renderIniItem]
+    constructor
+    · rw [hline]
+      have hl : lstripWs (c :: (cs ++ spaces s1 ++ sep :: (spaces s2 ++ v))) = c :: (cs ++ spaces s1 ++ sep :: (spaces s2 ++ v)) :=
+        lstripWs_head _ (by intro x hx; simp at hx; subst hx; exact hcw)
+      have hkey : ∀ x ∈ (c :: cs) ++ spaces s1, A.key.contains x = true := by
+        intro x hx
+        rcases List.mem_append.mp hx with h | h
+        · exact hnk x h
+        · rw [mem_spaces_eq x s1 h]; exact hA.sp_key
+      have htd := takeWhile_stop (p := fun c => A.key.contains c) ((c :: cs) ++ spaces s1) (spaces s2 ++ v) sep hkey hsk
+      have e2 : c :: (cs ++ spaces s1 ++ sep :: (spaces s2 ++ v)) = ((c :: cs) ++ spaces s1) ++ sep :: (spaces s2 ++ v) := by simp
+      have hvall : (spaces s2 ++ v).all (fun c => A.value.contains c) = true := by
+        apply List.all_eq_true.mpr
+        intro x hx
+        rcases List.mem_append.mp hx with h | h
+        · rw [mem_spaces_eq x s2 h]; exact hA.sp_value
+        · exact hvv x h
+      have hlv : lstripWs (spaces s2 ++ v) = v := by rw [lstripWs_spaces]; exact lstripWs_head v hvh
+      have hstrip : strip ((c :: cs) ++ spaces s1) = c :: cs := strip_append_spaces _ _ hns
+      have hsepw : lstripWs (sep :: (spaces s2 ++ v)) = sep :: (spaces s2 ++ v) :=
+        lstripWs_head _ (by intro x hx; simp at hx; subst hx; exact hsw)
+      unfold classifyIniLine
+      rw [hl]
+      simp only [hcc.1, Bool.false_eq_true, if_false, hcc.2]
+      rw [e2, htd.1, htd.2, hsepw]
+      have hne : ((c :: cs) ++ spaces s1).isEmpty = false := rfl
+      simp only [hne, Bool.false_eq_true, if_false, hsep, hvall, Bool.and_self, if_true, hlv, hstrip]
+      cases v with
+      | nil => rfl
+      | cons w ws =>
+        have hp : iniValuePiece (w :: ws) = w :: ws := by
+          unfold iniValuePiece
+          rw [before_char_miss _ _ hvhash]; exact rstripBS_id _ hvl
+        simp [hp]
+    · rw [hline]; exact leadWs_head _ (by intro x hx; simp at hx; subst hx; exact hcw)
+
+/-- a comment line — with or without blanks in front, whatever its text (`key = value`, `[section]`, …) —
+    is read as a comment, never as an option -/
+theorem classify_comment_line (A : IniAlphabet) (hA : IniAlphaOk A) (semi : Bool) (text : Str) (indent : Nat) :
+    classifyIniLine A (renderIniItem (.comment semi text indent)) = .comment := by
+  have hch : A.comment.contains (if semi then ';' else '#') = true := by
+    cases semi
+    · exact hA.hash
+    · exact hA.semi
+  have hws : isIniWs (if semi then ';' else '#') = false := by cases semi <;> decide
+  unfold classifyIniLine
+  simp only [renderIniItem]
+  rw [lstripWs_spaces, lstripWs_head _ (by intro x hx; simp at hx; subst hx; exact hws)]
+  simp only [hch, if_true]
+
+theorem dropWhile_wschar_spaces (l : Nat) (s : Str) (h : ∀ c, s.head? = some c → isIniWs c = false) :
+    (spaces l ++ s).dropWhile (fun c => isIniWs c && c != '\n' && c != '\r') = s := by
+  induction l with
+  | zero =>
+    cases s with
+    | nil => rfl
+    | cons x xs => simp [spaces, List.dropWhile_cons, h x rfl]
+  | succ k ih =>
+    have : spaces (k + 1) ++ s = ' ' :: (spaces k ++ s) := by simp [spaces, List.replicate_succ]
+    rw [this]
+    have hsp : (isIniWs ' ' && ' ' != '\n' && ' ' != '\r') = true := by decide
+    simp only [List.dropWhile_cons, hsp, if_true]
+    exact ih
+
+theorem classify_sec_line (A : IniAlphabet) (hA : IniAlphaOk A) (l r : Nat) (n : Str) (hn : SecNameOk A n) :
+    classifyIniLine A (renderIniItem (.sec l n r)) = .header n ∧ leadWs (renderIniItem (.sec l n r)) = 0 := by
+  obtain ⟨hn0, hns, hnh⟩ := hn
+  have hbw : isIniWs '[' = false := by decide
+  cases n with
+  | nil => exact absurd rfl hn0
+  | cons c cs =>
+    have hcw : isIniWs c = false := not_iniWs_of_not_space c (hns.1 c rfl)
+    have hline : renderIniItem (.sec l (c :: cs) r) = '[' :: (spaces l ++ (((c :: cs) ++ spaces r) ++ [']'])) := by
+      simp [renderIniItem]
+    constructor
+    · rw [hline]
+      unfold classifyIniLine
+      rw [lstripWs_head _ (by intro x hx; simp at hx; subst hx; exact hbw)]
+      simp only [hA.lb_comment, Bool.false_eq_true, if_false, if_true]
+      have hdw := dropWhile_wschar_spaces l (((c :: cs) ++ spaces r) ++ [']']) (by intro x hx; simp at hx; subst hx; exact hcw)
+      rw [hdw]
+      have hhdr : ∀ x ∈ (c :: cs) ++ spaces r, A.header.contains x = true := by
+        intro x hx
+        rcases List.mem_append.mp hx with h | h
+        · exact hnh x h
+        · rw [mem_spaces_eq x r h]; exact hA.sp_header
+      have htd := takeWhile_stop (p := fun c => A.header.contains c) ((c :: cs) ++ spaces r) [] ']' hhdr hA.rb_header
+      rw [htd.1, htd.2]
+      have hne : ((c :: cs) ++ spaces r).isEmpty = false := rfl
+      simp only [hne, Bool.false_eq_true, if_false, lstripWs, List.dropWhile_nil]
+      rw [strip_append_spaces _ _ hns]
+    · rw [hline]; exact leadWs_head _ (by intro x hx; simp at hx; subst hx; exact hbw)
+
+/-- what the INI renderer admits for one item; comment lines here start in column 0 (see the finding
+    `ini-indented-comment-joins-value` for indented ones) -/
+def IniItemOk (A : IniAlphabet) : IniItem → Prop
+  | .sec _ n _ => SecNameOk A n
+  | .opt n _ sep _ v => OptNameOk A n ∧ A.sep.contains sep = true ∧ IniValOk A v
+  | .comment _ _ indent => indent = 0
+  | .blank => True
+
+theorem not_continues (A : IniAlphabet) (line : Str) (h0 : leadWs line = 0) (hang : Option (Nat × Bool)) (cur : Option IniSec) :
+    (match hang, cur with
+      | some (k, _), some _ => decide (leadWs line > k) && (lstripWs line).all (fun c => A.value.contains c)
+      | _, _ => false) = false := by
+  cases hang with
+  | none => rfl
+  | some p =>
+    cases cur with
+    | none => rfl
+    | some s => obtain ⟨k, b⟩ := p; simp [h0]
+
+theorem iniLinesGo_step (A : IniAlphabet) (line : Str) (rest : List Str) (cur : Option IniSec) (acc : IniTree)
+    (hang : Option (Nat × Bool)) (hne : (lstripWs line).isEmpty = false) (h0 : leadWs line = 0) :
+    iniLinesGo A (line :: rest) cur acc hang =
+      (match classifyIniLine A line with
+      | .blank => iniLinesGo A rest cur acc hang
+      | .comment => iniLinesGo A rest cur acc none
+      | .header n => iniLinesGo A rest (some ⟨n, []⟩) (match cur with | some s => acc ++ [s] | none => acc) none
+      | .opt o hp => (match cur with
+        | none => none
+        | some s => iniLinesGo A rest (some ⟨s.name, s.opts ++ [o]⟩) acc
+            (if o.value.isSome then some (leadWs line, hp) else none))
+      | .bad => none) := by
+  simp only [iniLinesGo, hne, Bool.false_eq_true, if_false]
+  cases hang with
+  | none => simp only []; cases classifyIniLine A line <;> rfl
+  | some p =>
+    cases cur with
+    | none => simp only []; cases classifyIniLine A line <;> rfl
+    | some s =>
+      obtain ⟨k, b⟩ := p
+      simp only [h0, Nat.not_lt_zero, gt_iff_lt, decide_false, Bool.false_and, Bool.false_eq_true, if_false]
+      cases classifyIniLine A line <;> rfl
+
+/-- reading a rendered document line by line gives back its sections and options, exactly and in order -/
+theorem iniLinesGo_render (A : IniAlphabet) (hA : IniAlphaOk A) :
+    ∀ (doc : List IniItem) (cur : Option IniSec) (acc : IniTree) (hang : Option (Nat × Bool)),
+      (∀ it ∈ doc, IniItemOk A it) → iniLinesGo A (renderIni doc) cur acc hang = iniTreeGo doc cur acc := by
+  intro doc
+  induction doc with
+  | nil => intro cur acc hang _; simp [renderIni, iniLinesGo, iniTreeGo]
+  | cons it rest ih =>
+    intro cur acc hang hok
+    have hrest : ∀ it ∈ rest, IniItemOk A it := fun x hx => hok x (by simp [hx])
+    have hit := hok it (by simp)
+    cases it with
+    | blank =>
+      simp only [renderIni, List.map_cons, renderIniItem, iniTreeGo]
+      simp only [iniLinesGo, lstripWs, List.dropWhile_nil, List.isEmpty_nil, if_true]
+      exact ih cur acc hang hrest
+    | comment semi text indent =>
+      have hi : indent = 0 := hit
+      subst hi
+      have hws : isIniWs (if semi then ';' else '#') = false := by cases semi <;> decide
+      have hline : renderIniItem (.comment semi text 0) = (if semi then ';' else '#') :: text := by simp [renderIniItem, spaces]
+      have hl := lstripWs_head ((if semi then ';' else '#') :: text) (by intro x hx; simp at hx; subst hx; exact hws)
+      have h0 := leadWs_head ((if semi then ';' else '#') :: text) (by intro x hx; simp at hx; subst hx; exact hws)
+      have hc := classify_comment_line A hA semi text 0
+      simp only [renderIni, List.map_cons, iniTreeGo]
+      rw [hline] at hc ⊢
+      rw [iniLinesGo_step A _ _ cur acc hang (by rw [hl]; rfl) h0, hc]
+      exact ih cur acc none hrest
+    | sec l n r =>
+      obtain ⟨hc, h0⟩ := classify_sec_line A hA l r n hit
+      have hne : (lstripWs (renderIniItem (.sec l n r))).isEmpty = false := by
+        have : renderIniItem (.sec l n r) = '[' :: (spaces l ++ n ++ spaces r ++ [']']) := by simp [renderIniItem]
+        rw [this, lstripWs_head _ (by intro x hx; simp at hx; subst hx; decide)]; rfl
+      simp only [renderIni, List.map_cons, iniTreeGo]
+      rw [iniLinesGo_step A _ _ cur acc hang hne h0, hc]
+      exact ih _ _ none hrest
+    | opt n s1 sep s2 v =>
+      obtain ⟨hn, hsep, hv⟩ := hit
+      obtain ⟨hc, h0⟩ := classify_opt_line A hA n v s1 s2 sep hn hsep hv
+      have hne : (lstripWs (renderIniItem (.opt n s1 sep s2 v))).isEmpty = false := by
+        cases n with
+        | nil => exact absurd rfl hn.1
+        | cons c cs =>
+          have hcw : isIniWs c = false := not_iniWs_of_not_space c (hn.2.1.1 c rfl)
+          have : renderIniItem (.opt (c :: cs) s1 sep s2 v) = c :: (cs ++ spaces s1 ++ sep :: (spaces s2 ++ v)) := by
+            simp [renderIniItem]
+          rw [this, lstripWs_head _ (by intro x hx; simp at hx; subst hx; exact hcw)]; rfl
+      simp only [renderIni, List.map_cons, iniTreeGo]
+      rw [iniLinesGo_step A _ _ cur acc hang hne h0, hc]
+      cases cur with
+      | none => rfl
+      | some s => exact ih _ _ _ hrest
+
+
 end IV.TextFormats
